@@ -425,6 +425,12 @@ Probes == {
   <<"from_string_bad_alg", "reterr">>,
   <<"ristretto_from_string_bad_alg", "reterr">>,
   <<"sign_open_short", "reterr">>,
-  <<"kx_client_both_null", "misuse">>}
+  <<"kx_client_both_null", "misuse">>,
+  \* not a limit but an environment: the /dev/urandom fallback of the default random source with reads cut short by signals must
+  \* fill exactly the buffer it was given ("unavail": the seccomp filter that forces the fallback cannot be installed)
+  <<"sysrandom_fallback_short_reads", "ret0">>, <<"sysrandom_fallback_short_reads", "unavail">>,
+  \* and the default path: getrandom(2) in chunks of 256 bytes, 1 MiB + 77 bytes followed by a canary region (the kernel writes
+  \* these bytes, so an inaccessible page behind the buffer would stop it silently)
+  <<"sysrandom_getrandom_chunks", "ret0">>, <<"sysrandom_getrandom_chunks", "unavail">>}
 ProbeNames == {p[1] : p \in Probes}
 =============================================================================
